@@ -17,6 +17,8 @@ import (
 	"perun.network/go-perun/wallet"
 	"perun.network/go-perun/wire"
 
+	"polycry.pt/poly-go/sortedkv/memorydb"
+
 	"verif/sim/gen"
 	"verif/sim/kernel"
 	"verif/sim/world"
@@ -90,16 +92,28 @@ func newPair(s *world.Sim) *pair {
 		}
 	}
 	for i, name := range []string{"A", "B"} {
-		p.n[i] = w.AddNode(name, i, nil)
+		if sc.Cfg("persist", 0) == 1 {
+			p.n[i] = w.AddPersistentNode(name, i, memorydb.NewDatabase())
+		} else {
+			p.n[i] = w.AddNode(name, i, nil)
+		}
 		for a := 0; a < 3; a++ {
 			w.Ledger.Credit(name, gen.Asset(a), big.NewInt(initialFunds))
 		}
 		p.n[i].CtxTimeout = time.Duration(sc.Cfg("ctx_ms", 20000)) * time.Millisecond
 	}
+	for i := range p.n {
+		p.installPolicies(p.n[i])
+	}
+	return p
+}
+
+// installPolicies sets the keyed accept/reject and reaction-time policies.
+func (p *pair) installPolicies(n *world.Node) {
+	s, sc := p.s, p.s.Sc
 	acceptPct := sc.Cfg("accept_pct", 100)
 	reactMax := time.Duration(sc.Cfg("react_max_us", 200)) * time.Microsecond
-	for i := range p.n {
-		n := p.n[i]
+	{
 		n.OnUpdate = func(cur *channel.State, u client.ChannelUpdate) (bool, time.Duration) {
 			key := fmt.Sprintf("decide:%s:%s:v%d", n.Name, s.ChanName(u.State.ID), u.State.Version)
 			react := s.Delay("react:"+key, 0, reactMax)
@@ -112,7 +126,6 @@ func newPair(s *world.Sim) *pair {
 			return true, s.Delay("react:proposal:"+n.Name, 0, reactMax)
 		}
 	}
-	return p
 }
 
 // isProbe: an update that moves nothing is the harness's probe and is always accepted.
